@@ -5,6 +5,7 @@ import (
 	"go/ast"
 	"go/token"
 	"go/types"
+	"sort"
 	"strconv"
 	"strings"
 
@@ -562,10 +563,43 @@ func (g *FnGen) instr(ins ssa.Instruction) {
 	case *ssa.Defer:
 		g.defers = append(g.defers, x)
 	case *ssa.RunDefers:
+		pre := g.st.clone()
 		for i := len(g.defers) - 1; i >= 0; i-- {
 			d := g.defers[i]
 			for k := range g.E.callMods(d, true) {
 				g.havocKey(k)
+			}
+		}
+		// A deferred call cannot reach the cells of this function's non-escaping locals (go/ssa
+		// marks them "local", Heap == false: their address is never stored or passed on). Since
+		// x/tools 0.29 the results of a function with a defer are spilled to such cells around
+		// rundefers, so without this the wholesale havoc above would forget the results.
+		if len(g.defers) > 0 {
+			var locals []string
+			for _, b := range g.fn.Blocks {
+				for _, in := range b.Instrs {
+					if al, ok := in.(*ssa.Alloc); ok && !al.Heap {
+						if v, ok := g.vals[al]; ok {
+							locals = append(locals, v.T)
+						}
+					}
+				}
+			}
+			var hkeys []string
+			for k := range g.D.heapSorts {
+				hkeys = append(hkeys, k)
+			}
+			sort.Strings(hkeys)
+			for _, k := range hkeys {
+				srt := g.D.heapSorts[k]
+				if k == liveKey || !strings.HasPrefix(srt, "(Array Ref ") || g.st[k] == pre[k] || pre[k] == "" {
+					continue
+				}
+				cur := g.D.get(g.st, k)
+				for _, l := range locals {
+					cur = store(cur, l, sel(g.D.get(pre, k), l))
+				}
+				g.st[k] = g.def("hkeep", srt, cur)
 			}
 		}
 	case *ssa.Go:
